@@ -84,9 +84,14 @@ VP_HARNESS(h_dup_blocks)
   for (unsigned i = 0; i <= NAMELEN; i++) VP_CHECK(npu->name[i] == nm[i], "dup: name copied byte for byte");
   VP_CHECK(npu->infos.count == 2 && npu->infos.array != opu->infos.array && served(npu->infos.array) && served(npu->infos.array[1].name) && served(npu->infos.array[1].value) && npu->infos.array[1].value[0] == '2' && npu->infos.array[0].name[0] == 'a', "dup: info pairs copied into blocks of the given allocator");
   VP_CHECK(n->infos.count == 2 && served(n->infos.array) && n->infos.array[1].name[0] == 'b' && n->infos.array[1].value != t->infos.array[1].value, "dup: topology infos copied");
+  int cap_ok = 1;
 #ifdef VP_CBMC
-  VP_CHECK(__CPROVER_OBJECT_SIZE(npu->infos.array) >= npu->infos.allocated * sizeof(struct hwloc_info_s) && npu->infos.allocated >= npu->infos.count, "dup: the copied info array really has the capacity it claims (later additions stay in bounds)");
+  cap_ok = __CPROVER_OBJECT_SIZE(npu->infos.array) >= npu->infos.allocated * sizeof(struct hwloc_info_s) && npu->infos.allocated >= npu->infos.count;
+  VP_CHECK(cap_ok, "dup: the copied info array really has the capacity it claims (later additions stay in bounds)");
 #endif
+  /* (under the solver the additions below only run when the claim holds: an out-of-bounds store into an undersized block
+   *  turns the rest of the query into array theory and exhausts the solver; the native replay runs them and ASan sees the overflow) */
+  if (cap_ok)
   /* the copy is safely modifiable: pairs can be added up to the capacity it claims without leaving the block (the original
    * array is half full, so allocated > count) */
   { unsigned room = npu->infos.allocated - npu->infos.count; VP_CHECK(room == 6, "dup: the copy claims the capacity of the original");
